@@ -564,8 +564,12 @@ func (rn *runner) runURI(c *caseJSON) error {
 		limit = 1000
 	}
 	c.Obs = map[string]any{"args_get": pairsHex(sortPairs(get)), "urlencoded_error": uerr, "query_string_hex": hx(singles[2])}
-	rn.emit(fmt.Sprintf("CQ %s %s %s %s %s %s %s %s %s %s", vh.HxS(uri), parse, vh.Nat(limit), kvList(get), kvList(getNames),
-		kvList(args), kvList(argsNames), vh.Nat(size), vh.HxList(singles), vh.Bool(uerr)), c, len(get) > 0 || uerr)
+	views := "None"
+	if len(uri)%4 == 0 {
+		views = fmt.Sprintf("(Some (%s, %s, %s))", kvList(getNames), kvList(args), kvList(argsNames))
+	}
+	rn.emit(fmt.Sprintf("CQ %s %s %s %s %s %s %s %s", vh.HxS(uri), parse, vh.Nat(limit), kvList(get), views,
+		vh.Nat(size), vh.HxList(singles), vh.Bool(uerr)), c, len(get) > 0 || uerr)
 
 	// rule view == collection view
 	rn.checkRules(c, byRule, 101, "ARGS_GET", get)
@@ -619,8 +623,11 @@ func (rn *runner) runHeaders(c *caseJSON) error {
 	cnames := findAll(v.RequestCookiesNames())
 	rbp := single(v.RequestBodyProcessor())
 	c.Obs = map[string]any{"headers": pairsHex(sortPairs(headers)), "cookies": pairsHex(sortPairs(cks)), "rbp": rbp}
-	rn.emit(fmt.Sprintf("CH %s %s %s %s %s %s", kvList(hs), kvList(headers), kvList(hnames), kvList(cks), kvList(cnames), vh.HxS(rbp)),
-		c, len(headers) > 0)
+	names := "None"
+	if len(hs)%4 == 0 {
+		names = fmt.Sprintf("(Some (%s, %s))", kvList(hnames), kvList(cnames))
+	}
+	rn.emit(fmt.Sprintf("CH %s %s %s %s %s", kvList(hs), kvList(headers), kvList(cks), names, vh.HxS(rbp)), c, len(headers) > 0)
 	rn.checkRules(c, byRule, 105, "REQUEST_COOKIES", cks)
 	rn.checkRules(c, byRule, 106, "REQUEST_HEADERS", headers)
 	rn.checkRules(c, byRule, 107, "REQUEST_COOKIES_NAMES", cnames)
@@ -735,8 +742,12 @@ func (rn *runner) runBody(c *caseJSON) error {
 	if rerr {
 		rn.res.InputDistribution["body_error"]++
 	}
+	pn := "None"
+	if len(body)%4 == 0 {
+		pn = "(Some " + kvList(postNames) + ")"
+	}
 	rn.emit(fmt.Sprintf("CB %s %s %s %s %s %s %s %s %s %s %s %s %s %s %s %s", vh.Bool(c.Access), vh.Bool(c.Force), vh.Nat(depth), kvList(hs), ctl,
-		vh.HxS(body), tree, vh.Bool(c.Canon && c.Tree != nil), vh.Bool(extErr), vh.Bool(cmpArgs), kvList(post), kvList(postNames),
+		vh.HxS(body), tree, vh.Bool(c.Canon && c.Tree != nil), vh.Bool(extErr), vh.Bool(cmpArgs), kvList(post), pn,
 		vh.HxS(rb), vh.HxS(rbl), vh.HxS(rbp), vh.Bool(rerr)), c, len(post) > 0 || rerr || rb != "")
 
 	rn.checkRules(c, byRule, 102, "ARGS_POST", post)
@@ -994,11 +1005,12 @@ func Run(cfg vh.Config) (*vh.Result, error) {
 	}
 	sort.Strings(res.Notes)
 
-	const per = 1500
-	for i, k := 0, 0; i < len(rn.terms); i, k = i+per, k+1 {
-		j := i + per
-		if j > len(rn.terms) {
-			j = len(rn.terms)
+	// shards of at most ~200 KB of Coq text (elaboration of the hex literals dominates)
+	for i, k := 0, 0; i < len(rn.terms); k++ {
+		j, sz := i, 0
+		for j < len(rn.terms) && (j == i || (sz+len(rn.terms[j]) <= 200000 && j-i < 2000)) {
+			sz += len(rn.terms[j])
+			j++
 		}
 		info, err := vh.WriteShard(cfg.OutDir, vh.Shard{
 			Name: fmt.Sprintf("C03_%d", k), Imports: "From Verif Require Import Base Decode CorrC03.",
@@ -1008,6 +1020,7 @@ func Run(cfg vh.Config) (*vh.Result, error) {
 			return nil, err
 		}
 		res.Shards = append(res.Shards, info)
+		i = j
 	}
 	for i := 0; i < len(rn.cases) && len(res.Samples) < 8; i += 1 + len(rn.cases)/8 {
 		res.Samples = append(res.Samples, rn.cases[i])
